@@ -521,6 +521,7 @@ class Interp:
         self.class_inited = set()
         self.gen_stack = []          # generator objects whose body is currently executing (innermost last)
         self.nonneg_keys = set()     # keys of polynomials known to be sums of squares by construction (x . x)
+        self.len_objs = []           # the objects returned by len(<collection>) (identity matters: `n = len(xs); if n > 100`)
         self.live_generators = []
         self.ph_of = {}          # poly key -> placeholder token
         self.ph_val = {}         # placeholder token -> Poly
@@ -1586,6 +1587,13 @@ class Interp:
         if isinstance(r, Wrapped):
             r = self.unwrap(r, node)
         if isinstance(l, Poly) and isinstance(r, Poly):
+            if isinstance(op, (ast.Lt, ast.LtE, ast.Gt, ast.GtE)):
+                for a_, b_ in ((l, r), (r, l)):
+                    c_ = b_.const_value()
+                    if any(a_ is x_ for x_ in self.len_objs) and not any(b_ is x_ for x_ in self.len_objs) and c_ is not None and c_ >= 3:
+                        # an ordering test of a collection size against a constant: what the code does may differ for larger
+                        # inputs than any finite scenario contains
+                        self.events.append(("size-threshold", "%s compared with %s at %s" % ("len(...)", c_, self.where(node))))
             d = l - r
             return self.decide_sign(d, SIGNS_OF[type(op)], "%s %s 0" % (d.short(80), OPNAME[type(op)]))
         if (isinstance(l, Quot) or isinstance(r, Quot)) and isinstance(l, (Quot, Poly)) and isinstance(r, (Quot, Poly)) and type(op) in SIGNS_OF:
@@ -2851,7 +2859,10 @@ class Interp:
             if isinstance(v, Arr):
                 return Poly.const(v.shape[0])
             if isinstance(v, (list, tuple, dict, str)):
-                return Poly.const(len(v))
+                r_ = Poly.const(len(v))
+                if isinstance(v, (list, tuple, dict)):
+                    self.len_objs.append(r_)   # the size of a collection (see `cmp`: size thresholds are recorded)
+                return r_
             if v is None:
                 raise PathRaise("TypeError(len(None))", self.where(n))
             if isinstance(v, Obj):
